@@ -16,6 +16,37 @@ type gctx struct {
 	ring    []string
 	counter int
 	used    map[string]bool
+	recipe  map[string]string // how to draw another value for a row (histories): scalar int bool float map list
+	order   []string          // rows with a recipe, in creation order
+}
+
+func (g *gctx) remember(key, recipe string) {
+	if g.recipe == nil {
+		g.recipe = map[string]string{}
+	}
+	if _, ok := g.recipe[key]; !ok {
+		g.order = append(g.order, key)
+	}
+	g.recipe[key] = recipe
+}
+
+// redraw draws a new value for a row, of the kind its users rely on.
+func (g *gctx) redraw(key string) Val {
+	switch r := g.recipe[key]; r {
+	case "int":
+		return seqVal(lit(rapid.SampledFrom(intPool).Draw(g.t, "re-int")))
+	case "bool":
+		return seqVal(lit(rapid.SampledFrom(boolPool).Draw(g.t, "re-bool")))
+	case "float":
+		return seqVal(lit(rapid.SampledFrom(floatPool).Draw(g.t, "re-float")))
+	case "map", "list":
+		return g.genStruct(r, 0, 0, true, "")
+	case "scalar":
+		return seqVal(lit(rapid.SampledFrom(scalarPool).Draw(g.t, "re-scalar")))
+	default: // "dag:<i>": anything that only points forward
+		i, _ := strconv.Atoi(strings.TrimPrefix(r, "dag:"))
+		return g.genEntryVal(i + 1)
+	}
 }
 
 var (
@@ -146,6 +177,7 @@ func (g *gctx) genRef(minIdx int) Seg {
 	if minIdx >= len(g.dag) {
 		// nothing to point at: a typed leaf made on demand
 		hk := g.freshKey("v")
+		g.remember(hk, "scalar")
 		g.extra = append(g.extra, Entry{Key: hk, Val: seqVal(lit(rapid.SampledFrom(scalarPool).Draw(g.t, "leafval")))})
 		return g.refTo(hk, true)
 	}
@@ -269,6 +301,14 @@ func (g *gctx) genEntryVal(minIdx int) Val {
 // pool, directly or through a chain of whole-value rows.
 func (g *gctx) typedRef(pool []string) Val {
 	k := g.freshKey("t")
+	switch {
+	case &pool[0] == &intPool[0]:
+		g.remember(k, "int")
+	case &pool[0] == &boolPool[0]:
+		g.remember(k, "bool")
+	case &pool[0] == &floatPool[0]:
+		g.remember(k, "float")
+	}
 	g.extra = append(g.extra, Entry{Key: k, Val: seqVal(lit(rapid.SampledFrom(pool).Draw(g.t, "typed")))})
 	for rapid.IntRange(0, 2).Draw(g.t, "chain") == 0 {
 		c := g.freshKey("c")
@@ -295,6 +335,7 @@ func (g *gctx) genField(name string) Val {
 		}
 		if rapid.IntRange(0, 2).Draw(g.t, "structref") == 0 {
 			k := g.freshKey("s")
+			g.remember(k, kind)
 			g.extra = append(g.extra, Entry{Key: k, Val: g.genStruct(kind, 0, 0, true, "")})
 			return seqVal(g.refTo(k, true))
 		}
@@ -359,6 +400,7 @@ func genX(t *rapid.T) XScript {
 	}
 	for i := len(g.dag) - 1; i >= 0; i-- {
 		g.dag[i].Val = g.genEntryVal(i + 1)
+		g.remember(g.dag[i].Key, "dag:"+strconv.Itoa(i))
 	}
 	s := XScript{Default: g.def}
 	for _, name := range fieldNames {
@@ -378,6 +420,23 @@ func genX(t *rapid.T) XScript {
 			if rapid.IntRange(0, 1).Draw(t, "over:"+name) == 0 {
 				s.Over = append(s.Over, Field{name, g.genField(name)})
 			}
+		}
+	}
+	s.Nest = rapid.Bool().Draw(t, "nest")
+	// history on one Resolver: the values behind some references change between Resolves
+	if len(g.order) > 0 && rapid.IntRange(0, 2).Draw(t, "history") == 0 {
+		for r, nr := 0, rapid.IntRange(1, 3).Draw(t, "nrounds"); r < nr; r++ {
+			rd := Round{Fire: rapid.IntRange(0, 3).Draw(t, "fire") != 0}
+			seen := map[string]bool{}
+			for c, nc := 0, rapid.IntRange(1, 3).Draw(t, "nchanges"); c < nc; c++ {
+				k := rapid.SampledFrom(g.order).Draw(t, "changed")
+				if seen[k] {
+					continue
+				}
+				seen[k] = true
+				rd.Changes = append(rd.Changes, Entry{Key: k, Val: g.redraw(k)})
+			}
+			s.Rounds = append(s.Rounds, rd)
 		}
 	}
 	s.Table = append(append([]Entry(nil), g.dag...), g.extra...)
